@@ -47,7 +47,7 @@ func genNB(rt *rapid.T) nbProg {
 
 type ckDoc struct {
 	Checkpoints []struct {
-		ID     uint64 `json:"id"`
+		ID     uint64                   `json:"id"`
 		Levels [][]struct{ URI string } `json:"levels"`
 		WALs   []struct {
 			URI string `json:"uri"`
